@@ -285,7 +285,9 @@ def eval_mod_entry(st, m, env):
         return [('anyfield', key, None)]
     if isinstance(node, ast.Call) and isinstance(node.func, ast.Name) and node.func.id == 'contents':
         v = E.eval_spec(st, node.args[0], env)
-        return [('contents', v.t, v.z)]
+        # the expression is kept: for monitored (shared) state the frame means "the contents of whatever the
+        # expression denotes NOW" (another greenlet may have replaced the container object at a yield point)
+        return [('contents', v.t, v.z, node.args[0], dict(env))]
     if isinstance(node, ast.Attribute):
         v = E.eval_spec(st, node.value, env)
         if v.t.kind != 'ref':
@@ -296,7 +298,8 @@ def eval_mod_entry(st, m, env):
 
 
 def havoc(st, targets):
-    for (kind, k, r) in targets:
+    for tgt in targets:
+        kind, k, r = tgt[0], tgt[1], tgt[2]
         if kind == 'field':
             cls, fname = k.split('.', 1)
             _, ty = R.find_field(cls, fname)
@@ -351,7 +354,8 @@ def havoc_contents(st, ty, ref):
 def check_callee_frame(st, c, targets, line):
     if st.frames is None or st.spec:
         return
-    for (kind, k, r) in targets:
+    for tgt in targets:
+        kind, k, r = tgt[0], tgt[1], tgt[2]
         lab = 'call[%s]@%d/frame' % (c.key, line)
         if kind == 'field':
             E._check_write(st, r, k, False, '%s[%s]' % (lab, k))
@@ -403,6 +407,10 @@ def call_contract(st, c, args, kwargs, n=None, closure_env=None):
             prove_scope_governed(st, c, line)
         else:
             st.prove('call[%s]@%d/pre#%d' % (c.key, line, i), g, kind='pre', lineno=line)
+    if not st.spec and st.contract is not None:
+        for i, rq in enumerate(getattr(st.contract, 'call_requires', {}).get(c.key, [])):
+            g = E.spec_bool(st, rq, dict(st.locals))
+            st.prove('call[%s]@%d/site#%d' % (c.key, line, i), g, kind='pre', lineno=line)
     if c.pure:
         # a pure function is a function: an uninterpreted symbol applied to its arguments and to the
         # heap locations it declares to read (same arguments, same state => same result)
@@ -429,6 +437,9 @@ def call_contract(st, c, args, kwargs, n=None, closure_env=None):
     # 2. yield point: monitor invariants must hold when control can leave
     if c.yields and YIELD_HOOK[0] is not None:
         YIELD_HOOK[0](st, 'before', c, line)
+        # interference first, then the callee's own effect: what the callee allocates is then distinct from
+        # whatever the other greenlets stored into the shared fields meanwhile
+        YIELD_HOOK[0](st, 'after', c, line)
     pre_heap = dict(st.heap)
     pre_alloc = st.alloc
     # 3. frame: what the callee may modify must lie inside the caller's own frame
@@ -437,8 +448,6 @@ def call_contract(st, c, args, kwargs, n=None, closure_env=None):
     # 'fresh' in a callee's frame = objects the callee allocates itself: nothing of the caller's to havoc
     havoc(st, [t for t in targets if t[0] != 'fresh'])
     st.bump_alloc()
-    if c.yields and YIELD_HOOK[0] is not None:
-        YIELD_HOOK[0](st, 'after', c, line)
     # 4. outcomes
     outcomes = ['normal'] + list(c.raises.keys())
     k = st.choose(len(outcomes), 'outcome of %s' % c.key) if len(outcomes) > 1 else 0
@@ -1122,6 +1131,14 @@ def bi_py_decode(st, args, kw):
     return Val(T.STR, z3.Function('py_decode', z3.StringSort(), z3.StringSort())(args[0].z))
 
 
+def bi_subset(st, args, kw):
+    """subset(a, b) for sets: quantifier-free (combinatory array logic: map(=>, a, b) == K(true))"""
+    sa, ea = B.set_value(st, args[0])
+    sb, eb = B.set_value(st, args[1])
+    imp = z3.Implies(z3.Bool('a'), z3.Bool('b')).decl()
+    return E.mk_bool(z3.Map(imp, sa, sb) == z3.K(T.sort_of(ea), True))
+
+
 def bi_mkseq(st, args, kw):
     a, n = args
     return Val(T.TSeq(a.t.args[1]), SeqV(a.z, n.z))
@@ -1179,7 +1196,7 @@ def bi_dict(st, args, kw):
 
 
 _BUILTINS = {
-    'mkseq': bi_mkseq, 'str_suffix': bi_str_suffix, 'py_decode': bi_py_decode, 'alloc_ordered': bi_alloc_ordered, 'py_join_seq': bi_py_join_seq, 'subseq': bi_subseq, 'py_int_ok': bi_py_int_ok, 'py_int_val': bi_py_int_val, 'substr': bi_substr, 'str_index': bi_str_index, 'py_lower': bi_py_lower, 'substr_after_last': bi_substr_after_last, 'pure_IO_encrypted_of': bi_pure_IO_encrypted_of, 'str_prefix': bi_str_prefix, 'nraised': bi_nraised, 'allocated': bi_allocated, 'ncalls': bi_ncalls, 'call_arg': bi_call_arg,
+    'mkseq': bi_mkseq, 'subset': bi_subset, 'str_suffix': bi_str_suffix, 'py_decode': bi_py_decode, 'alloc_ordered': bi_alloc_ordered, 'py_join_seq': bi_py_join_seq, 'subseq': bi_subseq, 'py_int_ok': bi_py_int_ok, 'py_int_val': bi_py_int_val, 'substr': bi_substr, 'str_index': bi_str_index, 'py_lower': bi_py_lower, 'substr_after_last': bi_substr_after_last, 'pure_IO_encrypted_of': bi_pure_IO_encrypted_of, 'str_prefix': bi_str_prefix, 'nraised': bi_nraised, 'allocated': bi_allocated, 'ncalls': bi_ncalls, 'call_arg': bi_call_arg,
     'call_result': bi_call_result, 'trig': bi_trig, 'same': bi_same, 'is_list': bi_is_list, 'store': bi_store, 'dict_has': bi_dict_has,
     'dict_get': bi_dict_get, 'dict_keys': bi_dict_keys, 'dict': bi_dict, 'dict_index': bi_dict_index,
     'len': bi_len, 'set': bi_set, 'list': bi_list, 'tuple': bi_tuple, 'min': bi_min, 'max': bi_max,
